@@ -53,7 +53,12 @@ def extract(repo):
         "projP = BetaP * np.eye(3) + gammap[..., 0] * m1xm1 + gammap[..., 1] * m2xm2", "projM = np.eye(3) - projP", "projM = np.eye(6) - projP"], "__Spectral_Decomposition")
     out["Calc_psi"] = _need(_fn(m, "Calc_psi_e_pg", "PhaseField"), ["psiP_e_pg = np.sum(1 / 2 * Epsilon_e_pg * SigmaP_e_pg, -1)", "psiM_e_pg = np.sum(1 / 2 * Epsilon_e_pg * SigmaM_e_pg, -1)"], "Calc_psi_e_pg")
     out["history"] = _need(_fn(s, "__Calc_psiPlus_e_pg", "PhaseField"), ["inc_H = psiP_e_pg - old_psiPlus_e_pg", "(elements, gaussPoints) = np.where(inc_H < 0)" if False else "elements, gaussPoints = np.where(inc_H < 0)",
-                                                                        "psiP_e_pg[elements, gaussPoints] = old_psiPlus_e_pg[elements, gaussPoints]"], "__Calc_psiPlus_e_pg")
+                                                                        "psiP_e_pg[elements, gaussPoints] = old_psiPlus_e_pg[elements, gaussPoints]",
+                                                                        # the history lives at the points of the damage problem ('mass' rule), whoever asks for it
+                                                                        "Epsilon_e_pg = self._Calc_Epsilon_e_pg(u, groupElem, MatrixType.mass)"], "__Calc_psiPlus_e_pg")
+    hfn = _fn(s, "__Calc_psiPlus_e_pg", "PhaseField")
+    if [a.arg for a in hfn.args.args] != ["self", "groupElem"] or hfn.args.kwonlyargs or hfn.args.vararg or hfn.args.kwarg:
+        raise Refuse(f"__Calc_psiPlus_e_pg takes {[a.arg for a in hfn.args.args]}: the history array has ONE layout, (Ne, number of 'mass' points); a caller choosing other points would store another layout")
     out["history_damage"] = _need(_fn(s, "Solve", "PhaseField"), ["old_damage = self.damage", "oldAndNewDamage[:, 0] = old_damage", "oldAndNewDamage[:, 1] = d_np1", "d_np1 = np.max(oldAndNewDamage, 1)"], "Solve")
     return out
 
